@@ -142,6 +142,27 @@ def check(rep, an, tier):
                                      msg="an absolute tolerance on a quantity with physical units (gains in inverse capture units, captures) selects "
                                          "the formula of the relative capture: for small units entries that matter compare as zero and the result "
                                          "is not K·(Q + baseline)")
+    # ---- register_adaptation: the gain is stored as given (scalar, per receptor, or the full matrix with all its entries)
+    from ..values import plain_dep
+    for Kk in ("vec", "mat"):
+        Kv = arr("K", S("F") if Kk == "vec" else S("Fr", "F"), U_K)
+        res = an.run(f"{EST}.register_adaptation", kws=dict(K=Kv), self_fields=estimator_fields(K="vec", baseline="vec"), config=f"K={Kk}")
+        entry = "ReceptorEstimator.register_adaptation"
+        st = [e for e in res.events("self_store") if e.d["attr"] == "K"]
+        if not st:
+            rep.violated("R-EFFECT", "register_adaptation stores K", where=res.fn.loc(), construct="self.K = …", entry=entry, config=res.config,
+                         msg="K is not assigned")
+            continue
+        v = st[-1].d["val"].flat()
+        okp, how = plain_dep(v.data, "K")
+        rep.check("R-FLOW", "the registered adaptation is the given K itself", okp, where=st[-1].loc, construct=st[-1].text(), entry=entry,
+                  config=res.config,
+                  msg=(f"on some path the stored gain is a projection of the given matrix ({', '.join(how)}: its diagonal / a triangle): entries of "
+                       f"K that the test does not look at are dropped, relative capture is then not K(Q + baseline)") if how else
+                      "the stored K does not depend on the given K")
+        if Kk == "mat":
+            rep.check("R-SHAPE", "a matrix adaptation is stored as a matrix", None if v.shape is None else v.shape == S("Fr", "F"), where=st[-1].loc,
+                      construct=st[-1].text(), entry=entry, config=res.config, msg=f"stored shape {v.shape}")
     # sibling: apply_linear_transform
     for Kk in ("vec", "mat"):
         FR = rel_axis(Kk)
